@@ -64,26 +64,43 @@ def C10_full : Prop :=
     (jobs : List (Str × ParsedData × Option Pipeline.ScopedCrateTypes)) (outs : List (Str × Str)),
     generateAll E multi jobs lang = .ok outs → ∀ o ∈ outs, lexOk (langOf lang) o.2 = true
 
-/-! ## it does not hold: a Scala package name without a dot leaves an unmatched `}` -/
+/-! ## it does not hold: the `serde(rename)` of an item is printed raw, whatever it contains
+
+(Until the `fix:` commit fb91590 the witness was a Scala package name without a dot, which left an
+unmatched `}`; that finding is repaired, see `scala_package_without_dot_repaired` below.  None of the
+other open classes breaks the *lexical* layer on its own — they break the declaration grammar — but
+the mechanism of `dashed-type-name` does: the new name of an item is copied into the declaration
+unchecked, so a name with a dash *and a bracket* leaves the file unclosed.) -/
 
 def witnessStruct : RustStruct :=
   { id := ⟨s%"S", s%"S", false⟩, genericTypes := [], fields := [], comments := [], decorators := {}, isRedacted := false }
 
 def asciiExt : Ext := { U := UnicodeOps.ascii, parseType := fun _ => none }
 
-/-- `typeshare --lang scala --scala-package pkg` on `#[typeshare] struct S;` writes
-`class S extends Serializable\n\n}\n` -/
-theorem scala_package_without_dot :
-    Scala.generate { package := s%"pkg" } { structs := [witnessStruct] } =
-      .ok s%"class S extends Serializable\n\n}\n" := by decide
+/-- `#[typeshare] #[serde(rename = "New-Name{")] struct Foo;` -/
+def bracedStruct : RustStruct := { witnessStruct with id := ⟨s%"Foo", s%"New-Name{", true⟩ }
+
+/-- `typeshare --lang scala --scala-package com.example` on it writes `class New-Name{ extends Serializable` -/
+theorem renamed_name_printed_raw :
+    Scala.generate { package := s%"com.example" } { structs := [bracedStruct] } =
+      .ok s%"package com\n\npackage example {\n\nclass New-Name{ extends Serializable\n\n}\n" := by decide
 
 theorem C10_not_full : ¬ C10_full := by
   intro h
-  have := h asciiExt (.scala { package := s%"pkg" }) false [(s%"", { structs := [witnessStruct] }, none)]
-    [(s%"", s%"class S extends Serializable\n\n}\n")] (by decide) (s%"", s%"class S extends Serializable\n\n}\n")
+  have := h asciiExt (.scala { package := s%"com.example" }) false [(s%"", { structs := [bracedStruct] }, none)]
+    [(s%"", s%"package com\n\npackage example {\n\nclass New-Name{ extends Serializable\n\n}\n")] (by decide)
+    (s%"", s%"package com\n\npackage example {\n\nclass New-Name{ extends Serializable\n\n}\n")
     (List.Mem.head _)
   revert this
   decide
+
+/-- the repaired finding **scala-package-without-dot** as a positive regression example:
+`typeshare --lang scala --scala-package pkg` on `#[typeshare] struct S;` now opens the package block
+it closes (before fb91590 the whole output was `class S extends Serializable\n\n}\n`) -/
+theorem scala_package_without_dot_repaired :
+    Scala.generate { package := s%"pkg" } { structs := [witnessStruct] } =
+      .ok s%"package pkg {\n\nclass S extends Serializable\n\n}\n" ∧
+    lexOk .scala s%"package pkg {\n\nclass S extends Serializable\n\n}\n" = true := by decide
 
 /-! ## known classes (decidable), each with a kernel-checked witness on the model -/
 
@@ -124,9 +141,6 @@ def fieldsOf : RustItem → List RustField
 /-- **scala-default-underscore**: `#[serde(default)]` on a non-`Option` field prints ` = _` -/
 def Known_ScalaDefaultUnderscore (it : RustItem) : Bool :=
   (fieldsOf it).any fun f => f.hasDefault && !f.ty.isOptional
-
-/-- **scala-package-without-dot** -/
-def Known_ScalaPackageWithoutDot (cfg : Scala.Cfg) : Bool := !cfg.package.contains '.'
 
 /-- **swift-keyword-not-escaped**: a tag / content key that is a Swift keyword (printed raw in
 `ContainerCodingKeys`), a field called `var`, `let` or `inout` (the `init` label is not escaped) -/
@@ -189,6 +203,8 @@ theorem dashed_typescript :
 theorem dashed_kotlin : (Kotlin.structFacts {} dashedStruct).bind (fun d => .ok (C10Kotlin.declName d)) = .ok s%"New-Name" := by
   decide
 example : Known_DashedTypeName (.struct dashedStruct) = true := by decide
+/-- the witness of `C10_not_full` is inside this class -/
+example : Known_DashedTypeName (.struct bracedStruct) = true := by decide
 
 /-- formerly a witness of **python-generic-alias** (`G[T] = List[T]`: a subscripted assignment target,
 `T` undeclared); since the `fix:` commit 614135b the alias is an ordinary assignment and `T` is
@@ -216,7 +232,6 @@ example : Known_TsGenericUnitEnum (.enum digitUnitEnum) = true := by decide
 theorem scala_default_underscore :
     (Scala.paramFacts {} [] defaultField).bind (fun p => .ok (Scala.renderParam p)) = .ok s%"\ta: UByte = _" := by decide
 example : Known_ScalaDefaultUnderscore (.struct { witnessStruct with fields := [defaultField] }) = true := by decide
-example : Known_ScalaPackageWithoutDot { package := s%"pkg" } = true := by decide
 
 /-- the container keys are printed raw -/
 theorem swift_container_keys_raw (a : Swift.AlgebraicCodable) :
@@ -316,8 +331,8 @@ theorem C10_kotlin_file (cfg : Kotlin.Cfg) (H : C10Kotlin.CfgOk cfg) (d : Parsed
         (NB.flatMap _ _ fun x hx => C10Kotlin.renderDecl_nb x (hdecls x hx))).wb
       split
       · cases imports with
-        | none => simpa [C10Kotlin.K] using C10Kotlin.writeImports_nb cfg [] hf.package (by simp)
-        | some i => exact C10Kotlin.writeImports_nb cfg i hf.package (hf.imports i rfl)
+        | none => simpa [C10Kotlin.K] using C10Kotlin.writeImports_nb cfg [] hf.package H.pfx (by simp)
+        | some i => exact C10Kotlin.writeImports_nb cfg i hf.package H.pfx (hf.imports i rfl)
       · exact NB.nil
     | err e => rw [hd] at h; cases h
     | panic s => rw [hd] at h; cases h
@@ -390,16 +405,17 @@ theorem C10_scala_enum (cfg : Scala.Cfg) (H : C10Scala.CfgOk cfg) (e : RustEnum)
   cases h
   exact (C10Scala.enumFacts_nb H e hs f hf).wb
 
-/-- **Scala, the whole file** — when the package name has a dot (`¬ Known_ScalaPackageWithoutDot`,
-given here in the form the model uses: `rsplit_once('.')` succeeds) -/
+/-- **Scala, the whole file** — for every package name that is a dotted identifier fragment, with
+or without a dot (the hypothesis "the package name splits at a dot" of the previous rounds is gone
+with the `fix:` commit fb91590: a name without a dot is its own innermost package) -/
 theorem C10_scala_file (cfg : Scala.Cfg) (H : C10Scala.CfgOk cfg) (d : ParsedData) (hd : C10Scala.DataOk d)
     (hv : ∀ v, cfg.versionHeader = some v → Dotted v)
-    (hsplit : ∃ parent last, Scala.rsplitOnceDot cfg.package = some (parent, last) ∧ Dotted parent ∧ Dotted last)
+    (hpkg : Dotted cfg.package)
     (text : Str) (h : Scala.generate cfg d = .ok text) : wellBracketed C10Scala.S text = true := by
   unfold Scala.generate at h
   obtain ⟨f, hf, h⟩ := obind_ok h
   cases h
-  exact (C10Scala.renderFile_nb f (C10Scala.fileFacts_ok H d hd f hv hsplit hf)).wb
+  exact (C10Scala.renderFile_nb f (C10Scala.fileFacts_ok H d hd f hv hpkg hf)).wb
 
 /-- **Swift, every item kind** (`public struct` with `CodingKeys` and the memberwise `init`,
 `public typealias`, raw-value and algebraic `public enum` with the helper structs, `CodingKeys`,
@@ -540,8 +556,8 @@ example : C10Scala.CfgOk { package := s%"com.example", typeMappings := [(s%"Foo"
   intro p hp; simp only [List.mem_singleton] at hp; subst hp; decide
 example : EnumScope .scala C10Scala.S (fun cs => Known_DocLineBreak cs = false) exEnum := exEnumScope _ _ _ (by decide)
 example : (Scala.writeEnum { package := s%"com.example" } exEnum).isOk = true := by decide
-example : ∃ parent last, Scala.rsplitOnceDot s%"com.example" = some (parent, last) ∧ Dotted parent ∧ Dotted last :=
-  ⟨s%"com", s%"example", by decide, by decide, by decide⟩
+example : Dotted (Scala.Cfg.package { package := s%"com.example" }) ∧ Dotted (Scala.Cfg.package { package := s%"pkg" }) := by
+  decide
 
 example : C10Swift.CfgOk { pfx := s%"OP" } := ⟨by decide, by simp⟩
 example : EnumScope .swift C10Swift.W (fun cs => Known_DocLineBreak cs = false) exEnum := exEnumScope _ _ _ (by decide)
